@@ -46,7 +46,8 @@ func writeValue(b *strings.Builder, v reflect.Value, depth int) {
 		b.WriteString("z")
 		return
 	}
-	if v.Type().Implements(typeCallable) {
+	if v.Type().Implements(typeCallable) || reflect.PtrTo(v.Type()).Implements(typeCallable) {
+		// a function value (possibly dereferenced): marshals as ""
 		b.WriteString("F")
 		return
 	}
